@@ -168,11 +168,11 @@ def fix_ghosts(a, dim):
 
 def gen_config(rng, cid, dim=None, inner="any", outer="any", varying=None, steady=False, rough=None,
                dt_choices=(1.0e-3, 0.125, 1.0, 64.0, 1.0e6), nsteps=None, substep=None, same_grid=None,
-               const_in_time=False, geom=None):
+               const_in_time=False, geom=None, nt=None, bc_nt=None):
     dim = dim or rng.choice([1, 2, 3])
     r, t, h = geom or rng.choice([(10.0, 1.0, 10.0), (12.7, 2.0, 100.0), (25.4, 0.5, 7.5), (4.0, 2.5, 10.0)])
     nr = rng.randint(3, 5)
-    nt = rng.randint(3, 5) if dim >= 2 else rng.randint(3, 8)
+    nt = nt or (rng.randint(3, 5) if dim >= 2 else rng.randint(3, 8))
     nz = rng.randint(2, 4) if dim == 3 else rng.randint(2, 4)
     ns = nsteps or rng.randint(1, 3)
     times = [0.0]
@@ -188,8 +188,8 @@ def gen_config(rng, cid, dim=None, inner="any", outer="any", varying=None, stead
     cfg = {
         "id": cid, "r": hx(r), "t": hx(t), "h": hx(h), "nr": nr, "nt": nt, "nz": nz, "dim": dim,
         "times": [hx(x) for x in times],
-        "inner": gen_bc(rng, ik, nt, nz, times[0], times[-1], same_grid, const_in_time),
-        "outer": gen_bc(rng, ok, nt, nz, times[0], times[-1], same_grid, const_in_time),
+        "inner": gen_bc(rng, ik, bc_nt or nt, nz, times[0], times[-1], same_grid, const_in_time),
+        "outer": gen_bc(rng, ok, bc_nt or nt, nz, times[0], times[-1], same_grid, const_in_time),
         "material": gen_material(rng, varying), "fluid": gen_fluid(rng, varying and rng.random() < 0.5),
         "substep": substep or rng.choice([1, 1, 2, 3]), "steady": steady,
         "f": {"r": r, "t": t, "h": h, "times": times},
